@@ -719,4 +719,145 @@ theorem rnd_exact_million (s : Int) (h : s.natAbs < 2 ^ 53) : (rnd (s * 1000000)
 
 end DurFloat
 
+/-! ### the encoder on ARBITRARY CEL values (not only converted documents) -/
+
+/-- the four valid key types of a CEL map -/
+def PV.isCelKey : PV → Bool
+  | .cstr _ | .cbool _ | .cint _ | .cuint _ => true
+  | _ => false
+
+/-- the JSON member name of a CEL map key: text as is, booleans `true`/`false`, integers in decimal -/
+def celKeyName : PV → String
+  | .cstr s => s
+  | .cbool b => if b then "true" else "false"
+  | .cint z => toString z
+  | .cuint n => toString n
+  | _ => ""
+
+/-- the keys of a `dict` are pairwise different Python keys (the invariant of a dict, `True == 1 == UintType(1)` included) -/
+def pairKeysDistinct : List (PV × PV) → Bool
+  | [] => true
+  | (k, _) :: rest => rest.all (fun kv => !keyEq k kv.1) && pairKeysDistinct rest
+
+mutual
+/-- a CEL value: `None` and instances of the celtypes wrappers only, maps keyed by valid key types, each map a well-formed dict -/
+def PV.celWF : PV → Bool
+  | .none | .cbool _ | .cint _ | .cuint _ | .cdbl _ | .cstr _ | .cbytes _ | .cts _ | .cdur _ => true
+  | .clist xs => celWFL xs
+  | .cmap kvs => celWFK kvs && pairKeysDistinct kvs
+  | _ => false
+def celWFL : List PV → Bool
+  | [] => true
+  | x :: xs => x.celWF && celWFL xs
+def celWFK : List (PV × PV) → Bool
+  | [] => true
+  | (k, v) :: rest => k.isCelKey && v.celWF && celWFK rest
+end
+
+mutual
+/-- the JSON document a CEL value must serialise to, by kind — at every depth: booleans `true`/`false`, ints and uints numbers,
+timestamps RFC 3339 text, durations seconds text, bytes base64, lists arrays, maps objects -/
+def jsonOfCel : PV → Json
+  | .none => .null
+  | .cbool b => .bool b
+  | .cint z => .int z
+  | .cuint n => .int n
+  | .cdbl f => .float f
+  | .cstr s => .str s
+  | .cbytes bs => .str (String.ofList (b64encode bs))
+  | .cts t => .str (String.ofList (tsStr t))
+  | .cdur us => .str (String.ofList (durStr us))
+  | .clist xs => .arr (jsonOfCelL xs)
+  | .cmap kvs => .obj (jsonOfCelK kvs)
+  | _ => .null
+def jsonOfCelL : List PV → List Json
+  | [] => []
+  | x :: xs => jsonOfCel x :: jsonOfCelL xs
+def jsonOfCelK : List (PV × PV) → List (String × Json)
+  | [] => []
+  | (k, v) :: rest => (celKeyName k, jsonOfCel v) :: jsonOfCelK rest
+end
+
+theorem keyEq_toPython (a b : PV) (ha : a.isCelKey = true) (hb : b.isCelKey = true) :
+    keyEq (toPython a) (toPython b) = keyEq a b := by
+  cases a <;> simp [PV.isCelKey] at ha <;> cases b <;> simp [PV.isCelKey] at hb <;>
+    simp [toPython, dispatch_topy_bool, keyEq, PV.keyCls]
+
+theorem isCelKey_toPython (a : PV) (ha : a.isCelKey = true) : (toPython a).keyCls = a.keyCls := by
+  cases a <;> simp [PV.isCelKey] at ha <;> simp [toPython, dispatch_topy_bool, PV.keyCls]
+
+theorem celWFK_keys : (kvs : List (PV × PV)) → celWFK kvs = true → ∀ kv ∈ kvs, kv.1.isCelKey = true
+  | [], _ => by simp
+  | (k, v) :: rest, h => by
+      simp only [celWFK, Bool.and_eq_true] at h
+      intro kv hkv
+      simp only [List.mem_cons] at hkv
+      rcases hkv with hkv | hkv
+      · subst hkv; exact h.1.1
+      · exact celWFK_keys rest h.2 kv hkv
+
+theorem toPythonKvs_mem : (kvs : List (PV × PV)) → ∀ p ∈ toPythonKvs kvs, ∃ kv ∈ kvs, p.1 = toPython kv.1
+  | [] => by simp [toPythonKvs]
+  | (k, v) :: rest => by
+      intro p hp
+      simp only [toPythonKvs, List.mem_cons] at hp
+      rcases hp with hp | hp
+      · exact ⟨(k, v), by simp, by simp [hp]⟩
+      · obtain ⟨kv, hm, he⟩ := toPythonKvs_mem rest p hp
+        exact ⟨kv, by simp [hm], he⟩
+
+theorem toPythonKvs_pairwise : (kvs : List (PV × PV)) → (∀ kv ∈ kvs, kv.1.isCelKey = true) → pairKeysDistinct kvs = true →
+    (toPythonKvs kvs).Pairwise (fun a b => keyEq a.1 b.1 = false)
+  | [], _, _ => by simp [toPythonKvs]
+  | (k, v) :: rest, hk, hd => by
+      simp only [pairKeysDistinct, Bool.and_eq_true, List.all_eq_true, Bool.not_eq_true'] at hd
+      simp only [toPythonKvs, List.pairwise_cons]
+      refine ⟨?_, toPythonKvs_pairwise rest (fun kv h => hk kv (by simp [h])) hd.2⟩
+      intro p hp
+      obtain ⟨kv, hm, he⟩ := toPythonKvs_mem rest p hp
+      rw [he, keyEq_toPython k kv.1 (hk (k, v) (by simp)) (hk kv (by simp [hm]))]
+      exact hd.1 kv hm
+
+theorem jsonKey_toPython (k : PV) (h : k.isCelKey = true) : jsonKey (toPython k) = .ok (celKeyName k) := by
+  cases k <;> simp [PV.isCelKey] at h <;> simp [toPython, dispatch_topy_bool, jsonKey, celKeyName]
+
+mutual
+theorem jsonEnc_toPython : (v : PV) → v.celWF = true → jsonEnc (toPython v) = .ok (jsonOfCel v)
+  | .none, _ => by simp [toPython, jsonEnc, jsonOfCel]
+  | .cbool b, _ => by simp [toPython, dispatch_topy_bool, jsonEnc, jsonOfCel]
+  | .cint z, _ => by simp [toPython, jsonEnc, jsonOfCel]
+  | .cuint n, _ => by simp [toPython, jsonEnc, jsonOfCel]
+  | .cdbl f, _ => by simp [toPython, jsonEnc, jsonOfCel]
+  | .cstr s, _ => by simp [toPython, jsonEnc, jsonOfCel]
+  | .cbytes bs, _ => rfl
+  | .cts t, _ => rfl
+  | .cdur us, _ => rfl
+  | .clist xs, h => by
+      simp only [PV.celWF] at h
+      simp [toPython, dispatch_topy_list, jsonEnc, jsonOfCel, jsonEncList_toPython xs h, bind, Except.bind]
+  | .cmap kvs, h => by
+      simp only [PV.celWF, Bool.and_eq_true] at h
+      simp [toPython, dispatch_topy_map, jsonEnc, jsonOfCel,
+        dictOfPairs_id _ (toPythonKvs_pairwise kvs (celWFK_keys kvs h.1) h.2),
+        jsonEncKvs_toPython kvs h.1, bind, Except.bind]
+  | .pbool _, h => by simp [PV.celWF] at h
+  | .pint _, h => by simp [PV.celWF] at h
+  | .pfloat _, h => by simp [PV.celWF] at h
+  | .pstr _, h => by simp [PV.celWF] at h
+  | .plist _, h => by simp [PV.celWF] at h
+  | .pdict _, h => by simp [PV.celWF] at h
+theorem jsonEncList_toPython : (xs : List PV) → celWFL xs = true → jsonEncList (toPythonList xs) = .ok (jsonOfCelL xs)
+  | [], _ => by simp [toPythonList, jsonEncList, jsonOfCelL]
+  | x :: xs, h => by
+      simp only [celWFL, Bool.and_eq_true] at h
+      simp [toPythonList, jsonEncList, jsonOfCelL, jsonEnc_toPython x h.1, jsonEncList_toPython xs h.2, bind, Except.bind]
+theorem jsonEncKvs_toPython : (kvs : List (PV × PV)) → celWFK kvs = true →
+    jsonEncKvs (toPythonKvs kvs) = .ok (jsonOfCelK kvs)
+  | [], _ => by simp [toPythonKvs, jsonEncKvs, jsonOfCelK]
+  | (k, v) :: rest, h => by
+      simp only [celWFK, Bool.and_eq_true] at h
+      simp [toPythonKvs, jsonEncKvs, jsonOfCelK, jsonKey_toPython k h.1.1, jsonEnc_toPython v h.1.2,
+        jsonEncKvs_toPython rest h.2, bind, Except.bind]
+end
+
 end Cel.JsonM
